@@ -68,7 +68,8 @@ CreateAct(el, d) ==
             hasmap |-> cur.hasmap, map |-> cur.map,
             hasvals |-> cur.hasvals, vals |-> cur.vals,
             hasdflt |-> d.has, dflt |-> d.s,
-            ctor |-> "", tv |-> << >>, tb |-> << >>, items |-> << >>]
+            ctor |-> "", tv |-> << >>, tb |-> << >>, items |-> << >>,
+            items2 |-> << >>]
       r == Recon(e, Fixed)
       o == ImplEvent(e, Fixed, AllV,
                      plan.decl[el].vals \o <<"d1", "d2", "nosuch">>)
@@ -80,6 +81,7 @@ CreateAct(el, d) ==
      /\ last' = [op |-> "Create", el |-> el, decl |-> << >>,
                  hasdflt |-> d.has, dflt |-> d.s,
                  ctor |-> o.ctor, tv |-> o.tv, tb |-> o.tb, items |-> o.items,
+                 items2 |-> o.items2,
                  after |-> Snap(obj2), judgeobj |-> TRUE]
 
 Next == /\ Len(plan.acts) < MaxHist
